@@ -24,6 +24,13 @@ pub struct Layout {
     pub rb_trees: bool,
     /// Extra FAT sectors' worth of file to force (pads with FREE sectors) - for DIFAT.
     pub min_total_sectors: usize,
+    /// Bytes that no stream owns carry garbage instead of zeros: the rest of a stream's
+    /// final (mini) sector, FREE sectors and free mini sectors.  The format does not
+    /// define those bytes; other writers routinely leave old data there.
+    pub dirty_slack: bool,
+    /// FAT sectors beyond what the sector count needs (all FREESECT, listed in the
+    /// DIFAT): an over-provisioned FAT is legal.
+    pub spare_fat: usize,
 }
 
 impl Layout {
@@ -37,11 +44,13 @@ impl Layout {
             permute_chains: rng.chance(3, 4),
             rb_trees: rng.chance(4, 5),
             min_total_sectors: 0,
+            dirty_slack: rng.chance(1, 3),
+            spare_fat: *rng.pick(&[0usize, 0, 0, 1, 2]),
         }
     }
     /// The layout family the library's own writer produces (used as a control).
     pub fn canonical(version: u16) -> Layout {
-        Layout { version, free_pct: 0, dir_gap_pct: 0, free_mini_pct: 0, permute_sectors: false, permute_chains: false, rb_trees: false, min_total_sectors: 0 }
+        Layout { version, free_pct: 0, dir_gap_pct: 0, free_mini_pct: 0, permute_sectors: false, permute_chains: false, rb_trees: false, min_total_sectors: 0, dirty_slack: false, spare_fat: 0 }
     }
 }
 
@@ -335,7 +344,7 @@ pub fn synthesize(model: &Model, layout: &Layout, rng: &mut Rng) -> (Vec<u8>, Fe
         d_count = 0;
         loop {
             let total = used0 + free_sectors + f_count + d_count;
-            let nf = (total + per_fat - 1) / per_fat;
+            let nf = (total + per_fat - 1) / per_fat + layout.spare_fat;
             let nd = if nf > 109 { (nf - 109 + per_fat - 2) / (per_fat - 1) } else { 0 };
             if nf == f_count && nd == d_count {
                 break;
@@ -502,6 +511,21 @@ pub fn synthesize(model: &Model, layout: &Layout, rng: &mut Rng) -> (Vec<u8>, Fe
             }
         }
     }
+    // bytes nobody owns
+    let junk = |out: &mut Vec<u8>, lo: usize, hi: usize| {
+        for (i, b) in out[lo..hi].iter_mut().enumerate() {
+            *b = 0x81 | (((lo + i) * 37) as u8);
+        }
+    };
+    if layout.dirty_slack {
+        for &s in &ids {
+            junk(&mut out, off(s), off(s) + sl);
+        }
+        // the whole mini stream first (free mini sectors and every tail); data overwrites below
+        for &s in &ministream_ids {
+            junk(&mut out, off(s), off(s) + sl);
+        }
+    }
     // stream data
     for (fi, ids) in &stream_ids {
         let data = &flats[*fi].node.data;
@@ -509,6 +533,9 @@ pub fn synthesize(model: &Model, layout: &Layout, rng: &mut Rng) -> (Vec<u8>, Fe
             let lo = k * sl;
             let hi = ((k + 1) * sl).min(data.len());
             out[off(s)..off(s) + (hi - lo)].copy_from_slice(&data[lo..hi]);
+            if layout.dirty_slack && hi - lo < sl {
+                junk(&mut out, off(s) + (hi - lo), off(s) + sl);
+            }
         }
     }
     let per_mini = sl / 64;
@@ -534,7 +561,36 @@ pub const SYNTH_NAMES: &[&str] = &[
     "Storage 1", "stream.bin", "name_of_exactly_31_utf16_units_", "\u{1}CompObj", "\u{5}SummaryInformation", "Workbook", "WordDocument",
     "d1", "d2", "d3", "d4", "d5", "d6", "d7", "d8", "d9", "e1", "e2", "e3", "e4", "e5", "e6", "e7", "e8", "e9",
     "_a", "a_", "[b", "]b", "^b", "`b", "B_", "b^", "__SRP_0", "Module1", "_VBA_PR", "ThisWor", "{c", "~c", "@c", "Ab", "aB", "ZZ", "zy",
+    "a\0", "ab\0\0", "\0", "\0a",
+    "\u{1c5}a", "\u{1c4}b", "\u{1c8}x", "\u{1c7}y", "\u{1f2}m", "\u{1f1}n", "\u{1fb6}", "\u{1f80}", "\u{1f84}", "\u{1ff3}", "\u{1ff6}", "\u{1fc3}", "\u{1fc6}",
 ];
+
+/// A root holding the given streams (and nothing else).
+pub fn flat_model(items: &[(String, Vec<u8>)]) -> Model {
+    let mut m = Model::new();
+    for (name, data) in items {
+        let uid = m.fresh_uid();
+        let node = Node { name: name.clone(), kind: Kind::Stream, clsid: [0; 16], state: 0, ctime: Some(0), mtime: Some(0), data: data.clone(), children: Default::default(), uid };
+        m.root.children.insert(Key::of(name), node);
+    }
+    m
+}
+
+/// A session on a synthesised image of `model` whose unowned bytes carry garbage
+/// (`Layout::dirty_slack`); None if the image fails its self-check or does not open
+/// (never a verdict: the caller falls back to a fresh file).
+pub fn dirty_foreign_session(model: &Model, version: cfb::Version, bufsize: Option<usize>, rng: &mut Rng) -> Option<crate::engine::Session> {
+    let mut layout = Layout::random(rng);
+    layout.version = if version == cfb::Version::V3 { 3 } else { 4 };
+    layout.dirty_slack = true;
+    layout.spare_fat = 0;
+    let (bytes, _f) = synthesize(model, &layout, rng);
+    if crate::props::foreign::self_check(model, &bytes).is_err() {
+        return None;
+    }
+    let mode = if rng.chance(1, 2) { crate::engine::Mode::Strict } else { crate::engine::Mode::Permissive };
+    crate::engine::Session::open_bytes(bytes, mode, bufsize, model.clone()).ok()
+}
 
 pub fn random_model(rng: &mut Rng, max_nodes: usize, max_size: u64) -> Model {
     let mut m = Model::new();
